@@ -44,7 +44,7 @@ def strategy(ctx):
         "scheme": st.sampled_from(["http"] * 6 + ["https"]),
         "rewrite": st.one_of(st.none(), st.fixed_dictionaries({
             "hook": st.sampled_from(["requestheaders", "request"]),
-            "what": st.sampled_from(["host", "port", "scheme", "via", "via", "via", "hostport"]),
+            "what": st.sampled_from(["host", "port", "scheme", "via", "via", "via", "hostport", "transport", "transport"]),
             "host": st.sampled_from(HOSTS), "port": st.sampled_from(PORTS), "via": st.integers(0, 1)})),
         "server": st.sampled_from(["keep", "keep", "keep", "close-hdr", "drop", "http10"]),
         "then_close": st.booleans(),  # the server closes the (idle) connection after this exchange
@@ -83,6 +83,7 @@ def check_case(case, ctx):
     guard_fail = []
     via_guard = []
     at_forward = {}
+    transport_at_forward = {}
 
     def policy(hook):
         f = getattr(hook, "flow", None)
@@ -102,6 +103,9 @@ def check_case(case, ctx):
                 f.request.port = rw["port"]
             if rw["what"] == "scheme":
                 f.request.scheme = "https" if f.request.scheme == "http" else "http"
+            if rw["what"] == "transport" and mode == "regular" and hook.name == "requestheaders" and f.request.scheme == "http":
+                # an addon redirects this flow to a UDP (HTTP/3-style) upstream for the same address
+                f.server_conn = Server(address=(f.request.host, f.request.port), transport_protocol="udp")
             if rw["what"] == "via" and mode == "upstream":
                 try:
                     f.server_conn.via = PROXIES[rw["via"]]
@@ -112,6 +116,7 @@ def check_case(case, ctx):
             # proxy chosen by an earlier flow, so `via` is read from the flow rather than predicted)
             v = f.server_conn.via
             at_forward[i] = (f.request.host, f.request.port, f.request.scheme, (v[0], tuple(v[1])) if v else None)
+            transport_at_forward[i] = f.server_conn.transport_protocol
 
     def conn_policy(cmd):
         k = nopen[0]
@@ -232,6 +237,9 @@ def check_case(case, ctx):
         host, port, scheme, via = dests[i]
         for conn, m in lst:
             sock = via[1] if via else (host, port)
+            if i in transport_at_forward and conn.transport_protocol != transport_at_forward[i]:
+                ctx.fail("request-on-wrong-transport", "r%d wanted a %s connection but was written to a %s connection to %r" % (
+                    i, transport_at_forward[i], conn.transport_protocol, conn.address))
             if tuple(conn.address) != tuple(sock):
                 ctx.fail("request-on-wrong-socket:%s" % mode, "r%d for %r written to socket %r" % (i, dests[i], conn.address))
             if via:
@@ -242,7 +250,7 @@ def check_case(case, ctx):
             if scheme == "https" and not via:
                 ctx.fail("plain-request-on-tls-destination", "r%d (https) was written in clear to %r" % (i, conn.address))
     for conn, tags in per_conn.items():
-        ds = {dests[i] for i, _ in tags if i < len(dests)}
+        ds = {dests[i] + (transport_at_forward.get(i),) for i, _ in tags if i < len(dests)}
         if len(ds) > 1:
             ctx.fail("socket-shared-by-destinations", "socket %r carried requests for %r" % (conn.address, sorted(map(str, ds))))
     # failures must be explained by a failed connection of the same destination tuple
